@@ -41,6 +41,7 @@ Strip(s) == IF s = <<>> THEN <<>>
             ELSE <<Head(s)>> \o Strip(Tail(s))
 (* what uniqueName concatenates for one path component *)
 SanComp(c) == Join(ToLower(Strip(c)))
+SanChars(c) == ToLower(Strip(c))       \* the same, still as characters
 
 Cs(str) == str   \* documentation only: values of this shape are already sequences
 =============================================================================
